@@ -10,4 +10,4 @@ CONSTANTS
   ListMax = 2
   ScopeListMax = 1
 POSTCONDITION Visited
-INVARIANT LawRefl
+INVARIANT LawStrImpliesRfc
